@@ -98,6 +98,13 @@ func TestC10_Reorg(t *testing.T) {
 		}
 		defer n.Close()
 		trunk := sim.NewActor(n)
+		// a third of the cases are lockup-heavy: most block rewards of trunk and branches go to one
+		// contract-held tranche with changing delegates, so that rolled-back blocks overwrite (not
+		// just create) lockup records
+		if rapid.IntRange(0, 2).Draw(t, "lockupHeavy") == 0 {
+			trunk.StickyPct = 70
+			stats.Label(part, "lockup_heavy")
+		}
 		if err := trunk.Prelude(); err != nil {
 			t.Fatalf("HARNESS: prelude: %v", err)
 		}
